@@ -20,6 +20,13 @@ contract("abs:Tag.make_name", trusted=True, pos_params=["text"], kwarg="kw", pur
          ensures={"value": "result == tag_name(text)"}, doc="Tag.make_name(text, unescape=True) (string surgery: bounded)")
 contract(M + "ScenarioOutlineBuilder.is_parametrized_tag", props=P, params={"tag": "str"}, result="bool", pure=True,
          ensures={"contains-a-placeholder-bracket-pair": "result == (str_in('<', tag) and str_in('>', tag))"})
+contract(M + "ScenarioOutlineBuilder.is_parametrized_step", props=["C06"], params={"step": "ref:Step"}, result="bool", pure=True,
+         ensures={"looks-at-the-step-name-only": "result == (str_in('<', step.name) and str_in('>', step.name))"},
+         doc="only the step *name* decides; doc-strings and tables may carry placeholders of their own")
+contract(M + "ScenarioOutlineBuilder.has_parametrized_steps", props=["C06"], params={"steps": "seq:ref:Step"}, result="bool", pure=True,
+         loops=[Loop(invariant={"none-so-far": "forall(lambda k: implies(0 <= k < _i, not (str_in('<', _at(k).name) and str_in('>', _at(k).name))))"})],
+         ensures={"some-step-name-has-a-placeholder":
+                  "result == exists(lambda k: 0 <= k < len(steps) and str_in('<', steps[k].name) and str_in('>', steps[k].name))"})
 macro("ptag", ["t"], "(str_in('<', t) and str_in('>', t))")
 macro("row_tag_src", ["t", "row", "params"], "ite(ptag(t), rendered(t, row, params), t)")
 contract(M + "ScenarioOutlineBuilder.make_row_tags", props=P,
@@ -101,7 +108,7 @@ contract(M + "ScenarioOutlineBuilder.make_scenario_for", props=P + ["C02"],
                 Loop(invariant={
                     "one-row-copy-per-outline-step-so-far-in-order":
                         "len(new_steps) == _i and forall(lambda k: implies(0 <= k < _i, is_fresh(new_steps[k]) and "
-                        "copy_of(new_steps[k]) is _at(k)))",
+                        "copy_of(new_steps[k]) is _at(k) and new_steps[k] is row_step(_at(k), row, params)))",
                     "same": "_seq is scenario_template.steps"})],
          ensures={
              "a-new-scenario-whose-parent-is-the-outline": "is_fresh(result) and exact_type(result, 'Scenario') and result.parent is scenario_template",
@@ -109,6 +116,9 @@ contract(M + "ScenarioOutlineBuilder.make_scenario_for", props=P + ["C02"],
              "one-new-step-per-outline-step-in-order":
                  "len(result.steps) == len(scenario_template.steps) and forall(lambda k: implies(0 <= k < len(scenario_template.steps), "
                  "is_fresh(result.steps[k]) and copy_of(result.steps[k]) is scenario_template.steps[k]))",
+             "every-step-is-the-row-rendering-of-its-outline-step-name-doc-string-and-table":
+                 "forall(lambda k: implies(0 <= k < len(scenario_template.steps), "
+                 "result.steps[k] is row_step(scenario_template.steps[k], row, params)))",
              "tags-end-with-the-examples-block's-tags":
                  "len(result.tags) >= len(example.tags) and forall(lambda k: implies(0 <= k < len(example.tags), "
                  "result.tags[len(result.tags) - len(example.tags) + k] == example.tags[k]))",
